@@ -353,7 +353,8 @@ struct Worker {
     rx: Receiver<String>,
     pub restarts: u64,
 }
-const PRELUDE: &str = "ACC := []; RES := null; D0 := null; D1 := null; D2 := null; D3 := null; 0";
+const PRELUDE: &str =
+    "ACC := []; RES := null; RES2 := null; CNT := 0; D0 := null; D1 := null; D2 := null; D3 := null; 0";
 impl Worker {
     fn spawn() -> Worker {
         let exe = std::env::current_exe().expect("current_exe");
@@ -652,6 +653,39 @@ fn key_eq(a: &V, b: &V) -> bool {
     }
 }
 
+const UNARY_FNS: &[&str] = &["k1", "k0", "id", "nul", "lt", "eq", "mod", "neg", "wrap", "dup", "raise", "raise1"];
+const FORMABLE: &[&str] = &[
+    "filter", "reject", "partition", "take", "drop", "find", "find?", "locate", "locate?", "count", "any", "all", "map",
+    "flat_map", "sum", "product", "sort", "sort_on", "group", "classify", "pairwise", "fold", "scan", "min", "max",
+    "count_distinct", "vector_map", "mapmap", "mapply",
+];
+const COUNTABLE: &[&str] =
+    &["any", "all", "find", "find?", "locate", "locate?", "take", "drop", "filter", "reject", "map", "count", "partition"];
+
+/// write `name(seq, f)` in one of the other call forms, and / or count the calls of `f`
+fn apply_forms(rng: &mut Rng, c: &mut Case) {
+    if c.chain.is_some() || c.sorted || c.args.len() != 2 || !FORMABLE.contains(&c.name) {
+        return;
+    }
+    let seq_ok = matches!(&c.args[0], A::V(V::List(_) | V::Str(_) | V::Bytes(_) | V::Vector(_) | V::Stream(..) | V::Dict(_)));
+    let fname = match &c.args[1] {
+        A::F(n, _) => *n,
+        _ => return,
+    };
+    if !seq_ok {
+        return;
+    }
+    if rng.chance(3, 5) {
+        c.form = 1 + rng.below(5) as u8;
+        if c.form == 5 && !c.name.chars().all(|ch| ch.is_ascii_alphabetic() || ch == '_') {
+            c.form = 1;
+        }
+    }
+    if COUNTABLE.contains(&c.name) && UNARY_FNS.contains(&fname) && rng.chance(2, 5) {
+        c.counted = true;
+    }
+}
+
 /// keep floats away from what the model does not cover: arithmetic lambdas become structural ones,
 /// and the arithmetic / text builtins get integer inputs
 fn tame_fracs(c: &mut Case) {
@@ -885,6 +919,12 @@ struct Case {
     sorted: bool,
     /// `Some(ops)`: the call is written as the chained infix expression `a0 op1 a1 op2 a2 …`
     chain: Option<Vec<&'static str>>,
+    /// how the two-argument call `name(seq, f)` is written: 0 `name(s, f)`, 1 `s name f` (one
+    /// operator), 2 `s then id name f` (two operators), 3 `name(f)(s)` (partial application),
+    /// 4 `flip(name)(f, s)`, 5 `X = s; X name= f; X` (op-assign)
+    form: u8,
+    /// wrap the function argument in a call counter and compare `[result, calls]`
+    counted: bool,
 }
 
 fn gen_case(rng: &mut Rng, which: usize, max_len: usize) -> Case {
@@ -892,7 +932,7 @@ fn gen_case(rng: &mut Rng, which: usize, max_len: usize) -> Case {
     let profile = pick_profile(rng);
     let s = gen_seq(rng, kind, profile, max_len);
     let sa = A::V(s.clone());
-    let mk = |name: &'static str, args: Vec<A>| Case { name, args, sorted: false, chain: None };
+    let mk = |name: &'static str, args: Vec<A>| Case { name, args, sorted: false, chain: None, form: 0, counted: false };
     match which {
         0 => mk("filter", vec![sa, pred(rng, &s)]),
         1 => mk("reject", vec![sa, pred(rng, &s)]),
@@ -975,7 +1015,7 @@ fn gen_case(rng: &mut Rng, which: usize, max_len: usize) -> Case {
             }
             _ => mk("group", vec![sa, relf(rng, &s)]),
         },
-        20 => Case { name: "group_all", args: vec![sa, keyf(rng, &s)], sorted: true, chain: None },
+        20 => Case { name: "group_all", args: vec![sa, keyf(rng, &s)], sorted: true, chain: None, form: 0, counted: false },
         21 => mk("classify", vec![sa, keyf(rng, &s)]),
         22 => {
             let n = small_num(rng, &s);
@@ -1029,7 +1069,7 @@ fn gen_case(rng: &mut Rng, which: usize, max_len: usize) -> Case {
                 if has_f {
                     ops.push("with");
                 }
-                return Case { name: "chain", args, sorted: false, chain: Some(ops) };
+                return Case { name: "chain", args, sorted: false, chain: Some(ops), form: 0, counted: false };
             }
             mk(name, args)
         }
@@ -1069,7 +1109,7 @@ fn gen_case(rng: &mut Rng, which: usize, max_len: usize) -> Case {
                     let m = 3 + rng.below(2) as usize;
                     let args: Vec<A> = (0..m).map(|_| { let k2 = pick_kind(rng); A::V(gen_seq(rng, k2, Profile::Ints, 2)) }).collect();
                     if rng.chance(1, 2) {
-                        Case { name: "chain", args, sorted: false, chain: Some(vec!["**"; m - 1]) }
+                        Case { name: "chain", args, sorted: false, chain: Some(vec!["**"; m - 1]), form: 0, counted: false }
                     } else {
                         mk("**", args)
                     }
@@ -1261,7 +1301,7 @@ fn gen_case(rng: &mut Rng, which: usize, max_len: usize) -> Case {
                 if has_f {
                     ops.push("with");
                 }
-                Case { name: "chain", args, sorted: false, chain: Some(ops) }
+                Case { name: "chain", args, sorted: false, chain: Some(ops), form: 0, counted: false }
             } else {
                 mk("merge", args)
             }
@@ -1273,7 +1313,7 @@ const N_FAMILIES: usize = 51;
 /// hand-picked boundary cases (past findings first)
 fn corpus() -> Vec<Case> {
     let l = |xs: &[i64]| V::List(xs.iter().map(|x| V::Int(*x)).collect());
-    let mk = |name: &'static str, args: Vec<A>| Case { name, args, sorted: false, chain: None };
+    let mk = |name: &'static str, args: Vec<A>| Case { name, args, sorted: false, chain: None, form: 0, counted: false };
     vec![
         mk("^^", vec![A::V(l(&[])), A::V(V::Int(0))]),                         // F21
         mk("^^", vec![A::V(V::Str("".into())), A::V(V::Int(0))]),
@@ -1287,6 +1327,12 @@ fn corpus() -> Vec<Case> {
         mk("filter", vec![A::V(V::Stream(vec![V::Int(3), V::Int(1)], 2 + 3)), A::F("k1", None)]),
         mk("unique", vec![A::V(V::Stream(vec![V::Str("a".into()), V::Str("b".into())], 2 + 4 + 5))]),
         mk("suffixes", vec![A::V(V::Stream(vec![V::Int(0), V::Int(2)], 2 + 1 + 15 + 20))]),
+        // early exit of any / all in the call forms that reach run2 (seeded change C13-a4)
+        Case { name: "any", args: vec![A::V(V::List(vec![V::Int(1), V::Str("a".into())])), A::F("lt", Some(V::Int(5)))], sorted: false, chain: None, form: 1, counted: false },
+        Case { name: "all", args: vec![A::V(V::List(vec![V::Int(9), V::Str("a".into())])), A::F("lt", Some(V::Int(5)))], sorted: false, chain: None, form: 3, counted: false },
+        Case { name: "any", args: vec![A::V(l(&[0, 2, 3, 4])), A::F("id", None)], sorted: false, chain: None, form: 4, counted: true },
+        Case { name: "all", args: vec![A::V(l(&[1, 0, 3, 4])), A::F("id", None)], sorted: false, chain: None, form: 5, counted: true },
+        Case { name: "any", args: vec![A::V(l(&[0, 2, 3, 4])), A::F("id", None)], sorted: false, chain: None, form: 2, counted: true },
         // bytes join with leading empty pieces (seeded change C13-a3)
         mk("join", vec![A::V(V::List(vec![V::Bytes(vec![]), V::Bytes(vec![1])])), A::V(V::Bytes(vec![0]))]),
         mk("join", vec![A::V(V::List(vec![V::List(vec![]), V::Bytes(vec![]), V::Bytes(vec![1]), V::Bytes(vec![])])), A::V(V::Bytes(vec![9]))]),
@@ -1300,11 +1346,11 @@ fn corpus() -> Vec<Case> {
         mk("unique", vec![A::V(V::List(vec![V::Flt(2), V::Int(1), V::Rat(3), V::Flt(3)]))]),
         mk("frequencies", vec![A::V(V::List(vec![V::Flt(2), V::Int(1), V::Int(1)]))]),
         // chained infix forms (seeded change C13-a2)
-        Case { name: "chain", args: vec![A::V(l(&[1, 2, 3])), A::V(l(&[4, 5])), A::V(l(&[6]))], sorted: false, chain: Some(vec!["ziplongest", "ziplongest"]) },
-        Case { name: "chain", args: vec![A::V(l(&[10, 20])), A::V(l(&[1, 2])), A::V(l(&[5])), A::F("sub", None)], sorted: false, chain: Some(vec!["ziplongest", "ziplongest", "with"]) },
-        Case { name: "chain", args: vec![A::V(l(&[1, 2])), A::V(l(&[3, 4])), A::V(l(&[5, 6])), A::V(l(&[7]))], sorted: false, chain: Some(vec!["zip", "zip", "zip"]) },
-        Case { name: "chain", args: vec![A::V(l(&[1, 2])), A::V(l(&[3])), A::V(l(&[5, 6]))], sorted: false, chain: Some(vec!["ziplongest", "zip"]) },
-        Case { name: "chain", args: vec![A::V(l(&[1, 2])), A::V(l(&[3])), A::V(l(&[4, 5])), A::V(l(&[6]))], sorted: false, chain: Some(vec!["**", "**", "**"]) },
+        Case { name: "chain", args: vec![A::V(l(&[1, 2, 3])), A::V(l(&[4, 5])), A::V(l(&[6]))], sorted: false, chain: Some(vec!["ziplongest", "ziplongest"]), form: 0, counted: false },
+        Case { name: "chain", args: vec![A::V(l(&[10, 20])), A::V(l(&[1, 2])), A::V(l(&[5])), A::F("sub", None)], sorted: false, chain: Some(vec!["ziplongest", "ziplongest", "with"]), form: 0, counted: false },
+        Case { name: "chain", args: vec![A::V(l(&[1, 2])), A::V(l(&[3, 4])), A::V(l(&[5, 6])), A::V(l(&[7]))], sorted: false, chain: Some(vec!["zip", "zip", "zip"]), form: 0, counted: false },
+        Case { name: "chain", args: vec![A::V(l(&[1, 2])), A::V(l(&[3])), A::V(l(&[5, 6]))], sorted: false, chain: Some(vec!["ziplongest", "zip"]), form: 0, counted: false },
+        Case { name: "chain", args: vec![A::V(l(&[1, 2])), A::V(l(&[3])), A::V(l(&[4, 5])), A::V(l(&[6]))], sorted: false, chain: Some(vec!["**", "**", "**"]), form: 0, counted: false },
         mk("permutations", vec![A::V(l(&[]))]),                                  // F14
         mk("permutations", vec![A::V(l(&[1, 2, 3, 4]))]),
         mk("combinations", vec![A::V(l(&[1, 2])), A::V(V::Int(3))]),
@@ -1372,6 +1418,26 @@ fn run_case(w: &mut Worker, c: &Case) -> (String, String, String, String) {
             }
             e
         }
+        None if c.form != 0 || c.counted => {
+            let sq = arg_src(&c.args[0], &dict_vars);
+            let mut f = arg_src(&c.args[1], &dict_vars);
+            if c.counted {
+                f = format!("(\\x -> (CNT += 1; {}(x)))", f);
+            }
+            let e = match c.form {
+                1 => format!("{} {} {}", sq, c.name, f),
+                2 => format!("{} then id {} {}", sq, c.name, f),
+                3 => format!("{}({})({})", c.name, f, sq),
+                4 => format!("flip({})({}, {})", c.name, f, sq),
+                5 => format!("(RES = {}; RES {}= {}; RES)", sq, c.name, f),
+                _ => format!("{}({}, {})", c.name, sq, f),
+            };
+            if c.counted {
+                format!("(CNT = 0; RES2 = (try {} catch e -> \"T\"); [RES2, CNT])", e)
+            } else {
+                e
+            }
+        }
         None => call_src(c.name, &c.args, &dict_vars),
     };
     let (mut cls, detail) = w.eval(&src);
@@ -1381,6 +1447,9 @@ fn run_case(w: &mut Worker, c: &Case) -> (String, String, String, String) {
     let mut req = String::new();
     if c.sorted {
         req.push_str("sorted! ");
+    }
+    if c.counted {
+        req.push_str("calls! ");
     }
     match &c.chain {
         Some(ops) => {
@@ -1458,10 +1527,20 @@ fn main() {
                 }
                 None => (None, rest),
             };
+            let (form, counted, rest): (u8, bool, &str) = match rest.strip_prefix("form!") {
+                Some(r) => {
+                    let mut p = r.splitn(2, ' ');
+                    let tag = p.next().unwrap_or("0");
+                    let counted = tag.ends_with('c');
+                    let form = tag.trim_end_matches('c').parse().unwrap_or(0);
+                    (form, counted, p.next().unwrap_or(""))
+                }
+                None => (0, false, rest),
+            };
             match parse_case(rest) {
                 Some((name, cargs)) => {
                     let name: &'static str = Box::leak(name.into_boxed_str());
-                    let c = Case { name, args: cargs, sorted, chain };
+                    let c = Case { name, args: cargs, sorted, chain, form, counted };
                     let (src, cls, detail, req) = run_case(&mut w, &c);
                     println!("source: {}", src);
                     println!("rust: {}   ({})", cls, detail);
@@ -1485,6 +1564,7 @@ fn main() {
     while cases.len() < n_cases {
         let mut c = gen_case(&mut rng, i % N_FAMILIES, max_len);
         tame_fracs(&mut c);
+        apply_forms(&mut rng, &mut c);
         cases.push(c);
         i += 1;
     }
@@ -1527,6 +1607,9 @@ fn main() {
                 "{}{}",
                 match &cases[i].chain {
                     Some(ops) => format!("chain!{} ", ops.join(",")),
+                    None if cases[i].form != 0 || cases[i].counted => {
+                        format!("form!{}{} ", cases[i].form, if cases[i].counted { "c" } else { "" })
+                    }
                     None => String::new(),
                 },
                 case_text(cases[i].name, &cases[i].args)
